@@ -273,3 +273,9 @@ try:
     ITEMS += _C13
 except ImportError:
     pass
+
+try:
+    from translate_c20 import ITEMS as _C20
+    ITEMS += _C20
+except ImportError:
+    pass
